@@ -140,6 +140,15 @@ def atoms_of(test, pol, norm_fn=None):
         return out
     if isinstance(test, ast.UnaryOp) and isinstance(test.op, ast.Not):
         return atoms_of(test.operand, not pol, nf)
+    if isinstance(test, ast.IfExp):
+        # a conditional expression with a constant arm is a conjunction / disjunction: `False if c else y` is `not c and y`
+        for const_arm, other, c_pol in ((test.body, test.orelse, False), (test.orelse, test.body, True)):
+            if isinstance(const_arm, ast.Constant) and isinstance(const_arm.value, bool):
+                if const_arm.value != pol:
+                    # the result differs from the constant arm, so the other arm was taken and gave `pol`
+                    return atoms_of(test.test, c_pol, nf) + atoms_of(other, pol, nf)
+                break
+        return [(nf(test), pol)]
     if isinstance(test, ast.Compare) and len(test.ops) == 1:
         flip = {ast.IsNot: ast.Is, ast.NotIn: ast.In, ast.NotEq: ast.Eq}.get(type(test.ops[0]))
         if flip is not None:
